@@ -1573,6 +1573,10 @@ SoPlexBase<R>& SoPlexBase<R>::operator=(const SoPlexBase<R>& rhs)
          _rationalLUSolverBind = rhs._rationalLUSolverBind;
       }
 
+      // a persistently scaled LP and its scaler refer to each other; bind the copies to each other instead of to rhs
+      if(_scaler != nullptr && _realLP->isScaled())
+         _scaler->bindToLP(*_realLP);
+
       // copy boolean flags
       _isRealLPLoaded = rhs._isRealLPLoaded;
       _isRealLPScaled = rhs._isRealLPScaled;
